@@ -90,6 +90,7 @@ func main() {
 		names = append(names, ff.Name)
 	}
 	sort.Strings(names)
+	resolveParamCalls(facts)
 	markEntries(prog, fns, facts)
 	emitLock(outDir, names, facts)
 	// informer handlers: the function literals of the constructor that escape
@@ -105,6 +106,52 @@ func main() {
 	emitSvc(outDir, prog, fns)
 	b, _ := json.MarshalIndent(map[string]interface{}{"functions": facts, "order": names, "cache_write_sites": mutSites}, "", " ")
 	_ = os.WriteFile(outDir+"/facts.json", b, 0o644)
+}
+
+// resolveParamCalls: fixpoint of "parameter i of f is invoked" over parameters handed on, then one call edge
+// callee -> function value for every function value passed for an invoked parameter; a function value passed for a parameter
+// that is NOT invoked by the callee (stored, returned, passed outside) is treated as escaping: an entry point.
+func resolveParamCalls(facts map[string]*fnFacts) {
+	for changed := true; changed; {
+		changed = false
+		for _, pp := range paramPasses {
+			if pp.param == nil || !paramInvoked[pp.callee][pp.idx] {
+				continue
+			}
+			i := paramIndex(pp.caller, pp.param)
+			if i < 0 {
+				continue
+			}
+			if paramInvoked[pp.caller] == nil {
+				paramInvoked[pp.caller] = map[int]bool{}
+			}
+			if !paramInvoked[pp.caller][i] {
+				paramInvoked[pp.caller][i] = true
+				changed = true
+			}
+		}
+	}
+	for _, pp := range paramPasses {
+		if pp.fn == nil {
+			continue
+		}
+		if paramInvoked[pp.callee][pp.idx] {
+			if ff := facts[pp.callee.String()]; ff != nil {
+				have := false
+				for _, c := range ff.Calls {
+					if c == pp.fn.String() {
+						have = true
+					}
+				}
+				if !have {
+					ff.Calls = append(ff.Calls, pp.fn.String())
+					sort.Strings(ff.Calls)
+				}
+			}
+		} else if _, ok := passedOut[pp.fn.String()]; !ok {
+			passedOut[pp.fn.String()] = "passed to " + pp.callee.String() + ", which does not invoke it itself"
+		}
+	}
 }
 
 func inOurs(f *ssa.Function) bool {
@@ -367,6 +414,26 @@ func analyze(prog *ssa.Program, f *ssa.Function, all map[*ssa.Function]bool) *fn
 					calls[mc.Fn.(*ssa.Function).String()] = true
 				} else if fn, ok := cc.Value.(*ssa.Function); ok {
 					calls[fn.String()] = true
+				} else if pv, ok := cc.Value.(*ssa.Parameter); ok {
+					// a function-typed parameter is invoked here
+					if i := paramIndex(f, pv); i >= 0 {
+						if paramInvoked[f] == nil {
+							paramInvoked[f] = map[int]bool{}
+						}
+						paramInvoked[f][i] = true
+					}
+				}
+			}
+			// function values (or own function-typed parameters) passed to one of our own functions
+			if sc := cc.StaticCallee(); sc != nil && all[sc] {
+				for i, a := range cc.Args {
+					if g := funcValue(a); g != nil && all[g] {
+						paramPasses = append(paramPasses, paramPass{callee: sc, idx: i, fn: g, caller: f})
+					} else if pv, ok := a.(*ssa.Parameter); ok {
+						if _, isFn := pv.Type().Underlying().(*types.Signature); isFn {
+							paramPasses = append(paramPasses, paramPass{callee: sc, idx: i, param: pv, caller: f})
+						}
+					}
 				}
 			}
 			// function values handed to someone else may be called in this context AND later on another goroutine
@@ -425,6 +492,30 @@ func deref(t types.Type) types.Type {
 
 var goEntries = map[string]string{}
 var passedOut = map[string]string{}
+
+// function-typed parameters: which parameters a function invokes (directly, or by handing them on to another function of
+// ours that invokes them), and which function values are passed for which parameter at the static call sites.  A function
+// value passed to one of our own functions runs inside that function (e.g. a withLock(f) helper): an edge callee -> value.
+var paramInvoked = map[*ssa.Function]map[int]bool{}
+
+type paramPass struct {
+	callee *ssa.Function
+	idx    int
+	fn     *ssa.Function // a function value of ours passed for that parameter, or nil
+	param  *ssa.Parameter // or: the caller's own parameter handed on
+	caller *ssa.Function
+}
+
+var paramPasses []paramPass
+
+func paramIndex(f *ssa.Function, p *ssa.Parameter) int {
+	for i, q := range f.Params {
+		if q == p {
+			return i
+		}
+	}
+	return -1
+}
 
 func funcValue(v ssa.Value) *ssa.Function {
 	switch x := v.(type) {
